@@ -512,9 +512,21 @@ func (tt *TermTable) Ite(c, a, b *Term) *Term {
 	return tt.mk(OpIte, a.W, c, a, b, 0, "")
 }
 
+// constIte: t is ite(c, k1, k2) with constant arms.
+func constIte(t *Term) bool {
+	return t.Op == OpIte && t.B.Op == OpConst && t.C.Op == OpConst
+}
+
 func (tt *TermTable) cmp(op Op, a, b *Term) *Term {
 	if a.W != b.W || a.W == 0 {
 		panic("cmp width mismatch")
+	}
+	// comparisons distribute over an ite with constant arms
+	if constIte(a) && b.Op == OpConst {
+		return tt.Ite(a.A, tt.cmp(op, a.B, b), tt.cmp(op, a.C, b))
+	}
+	if constIte(b) && a.Op == OpConst {
+		return tt.Ite(b.A, tt.cmp(op, a, b.B), tt.cmp(op, a, b.C))
 	}
 	if a.Op == OpConst && b.Op == OpConst {
 		var r bool
@@ -718,6 +730,14 @@ func (tt *TermTable) Bin(op Op, a, b *Term) *Term {
 		if v, ok := foldBin(op, w, a.K, b.K); ok {
 			return tt.Const(w, v)
 		}
+	}
+	// arithmetic with a constant distributes over an ite with constant arms
+	divLike := op == OpUdiv || op == OpUrem || op == OpSdiv || op == OpSrem
+	if constIte(a) && b.Op == OpConst && !(divLike && b.K == 0) {
+		return tt.Ite(a.A, tt.Bin(op, a.B, b), tt.Bin(op, a.C, b))
+	}
+	if constIte(b) && a.Op == OpConst && !(divLike && (b.B.K == 0 || b.C.K == 0)) {
+		return tt.Ite(b.A, tt.Bin(op, a, b.B), tt.Bin(op, a, b.C))
 	}
 	{
 		// signed operations on provably non-negative operands are the unsigned ones
@@ -988,6 +1008,9 @@ func (tt *TermTable) Zext(a *Term, w uint8) *Term {
 	}
 	if a.Op == OpZext {
 		return tt.Zext(a.A, w)
+	}
+	if constIte(a) {
+		return tt.Ite(a.A, tt.Zext(a.B, w), tt.Zext(a.C, w))
 	}
 	// zext(x[k-1:0]) where x already fits k bits: a truncation that loses nothing
 	if a.Op == OpExtract && a.K&0xff == 0 && a.A.Hi <= mask(a.W) {
